@@ -144,7 +144,7 @@ class BaseAssembler:
             # Since there are a lot of short mnemonic, the chance that someone
             # will use a keyword as a label, is large.
             if id_matcher.match(keyword):
-                self.add_rule(self.str_id, [keyword], lambda rhs: keyword)
+                self.add_rule(self.str_id, [keyword], lambda rhs: rhs[0].val)
 
     def add_instruction(self, rhs, f, priority=0):
         """Add an instruction to the grammar"""
